@@ -127,11 +127,22 @@ func ZZ_C12_Restart() {
 	add("tag/big", "#111111", zzBigDef())
 	add("service/web", "#222222", "sport:80")
 	add("tag/all", "#333333", "id:0:")
+	if zz.Param("marks", 0) == 1 { // a mark and a tag that references it
+		add("mark/m", "#777777", "id:0")
+		add("tag/viam", "#888888", "mark:m")
+	}
 	imp(mgr, "a.pcap")
 	zzSettle(mgr)
 	imp(mgr, "b.pcap")
 	zzSettle(mgr)
 	zzCheckQuiescent(mgr, model, "before")
+	shown := map[string]TagInfo{} // the tags as the first service showed them
+	for _, t := range mgr.ListTags() {
+		shown[t.Name] = t
+	}
+	for _, a := range acked {
+		zz.Assert(shown[a.name].Color == a.color && (shown[a.name].Definition == a.def || a.name == "mark/m"), "before.acknowledged-tag-shown")
+	}
 
 	further := true // a further import after the restart
 	gate := zz.Choice("gate", zz.Param("gates", 7))
@@ -250,7 +261,7 @@ func ZZ_C12_Restart() {
 	for _, a := range acked {
 		t, ok := tags[a.name]
 		zz.Assert(ok, "restart.acknowledged-tag-present")
-		zz.Assert(!ok || (t.Definition == a.def && t.Color == a.color), "restart.acknowledged-tag-unchanged")
+		zz.Assert(!ok || (t.Definition == shown[a.name].Definition && t.Color == a.color), "restart.acknowledged-tag-unchanged")
 	}
 	zzCheckQuiescent(mgr2, model, "restarted")
 	if further {
